@@ -53,7 +53,7 @@ theorem unvisited_le (vis : List (Nat × Nat)) (l : List Nat) : unvisited vis l 
 structure TotalCtx (s0 : State) (dst : HeapId) (rgen : Option Nat) (fixed : Bool)
     (Rel : Nat → Prop) : Prop where
   ctx : CloneCtx s0 dst rgen fixed Rel
-  cell : ∀ v o, Rel v → s0.obj v = some o → shareable s0 rgen v = false → o.kind = .cell →
+  cell : ∀ v o, Rel v → s0.obj v = some o → shareable s0 rgen v = false → BypassKind o.kind →
     fixed = true
   cloneable : ∀ v o, Rel v → s0.obj v = some o → shareable s0 rgen v = false →
     o.kind ≠ .udata ∧ o.kind ≠ .thread
@@ -166,20 +166,23 @@ theorem viaVisited_total {fixed : Bool} {s0 : State} {rgen : Option Nat} {dst th
 theorem cloneVal_total {s0 : State} {dst thr : HeapId} {rgen : Option Nat} {fixed : Bool}
     {Rel : Nat → Prop} (T : TotalCtx s0 dst rgen fixed Rel) :
     ∀ (f : Nat) (c : Cl) (v : Nat), CI s0 dst c → CI2 s0 Rel c → Rel v →
-      unvisited c.vis s0.ids + 1 ≤ f → ∃ c' r, cloneVal dst thr rgen fixed f c v = some (c', r) := by
+      unvisited c.vis s0.ids + 1 ≤ f →
+      ∃ c' r, cloneVal dst thr rgen fixed f false c v = some (c', r) := by
   intro f
   induction f with
   | zero => intro c v _ _ _ h; omega
   | succ f ih =>
     intro c v hci hci2 hrel hb
-    have hkP : ∀ c v c' r, CI s0 dst c → Rel v → cloneVal dst thr rgen fixed f c v = some (c', r) →
-        Post fixed s0 dst thr c c' r := fun c v c' r a b d => cloneVal_post T.ctx f c v c' r a b d
+    have hkP : ∀ c v c' r, CI s0 dst c → Rel v →
+        cloneVal dst thr rgen fixed f false c v = some (c', r) →
+        Post fixed s0 dst thr c c' r :=
+      fun c v c' r a b d => cloneVal_post T.ctx f false c v c' r a b d
     have hkI := cloneVal_iso (thr := thr) T.ctx T.cell f
     obtain ⟨o, ho⟩ := T.ctx.live v hrel
     have hv : v < s0.next := T.ctx.wf.lt ho
     have hoc : c.s.obj v = some o := by rw [hci.ext.2 v hv]; exact ho
     have hsh := shareable_ext (rgen := rgen) hci.ext hv
-    simp only [cloneVal]
+    simp only [cloneVal, Bool.not_false, Bool.true_and]
     by_cases hs : shareable s0 rgen v = true
     · rw [hsh, hs]; exact ⟨c, v, by simp⟩
     · have hs' : shareable s0 rgen v = false := by
@@ -188,7 +191,7 @@ theorem cloneVal_total {s0 : State} {dst thr : HeapId} {rgen : Option Nat} {fixe
         · exact absurd hb hs
       rw [hsh, hs']
       simp only [Bool.false_eq_true, if_false, hoc]
-      have hedges : o.kind ≠ .thread → ∀ e ∈ o.edges, Rel e := T.ctx.closed v o hrel ho hs'
+      have hedges : o.kind ≠ .thread → ∀ e ∈ o.edges, Rel e := T.ctx.closed v o hrel ho
       have hcl := T.cloneable v o hrel ho hs'
       cases hk : o.kind with
       | udata => exact absurd hk hcl.1
@@ -198,14 +201,26 @@ theorem cloneVal_total {s0 : State} {dst thr : HeapId} {rgen : Option Nat} {fixe
         simp only
         exact viaVisited_total (thr := thr) _ f hkP hkI ih .plain dst hci hci2 hrel hv
           (hedges (by simp [hk])) hb
+      | aarr =>
+        have hfx := T.cell v o hrel ho hs' (Or.inr (Or.inl hk))
+        subst hfx
+        simp only [Bool.not_true]
+        exact viaVisited_total (thr := thr) _ f hkP hkI ih .aarr dst hci hci2 hrel hv
+          (hedges (by simp [hk])) hb
+      | uarr =>
+        have hfx := T.cell v o hrel ho hs' (Or.inr (Or.inr hk))
+        subst hfx
+        simp only [Bool.not_true]
+        exact viaVisited_total (thr := thr) _ f hkP hkI ih .uarr dst hci hci2 hrel hv
+          (hedges (by simp [hk])) hb
       | shallow =>
-        have hfx := T.ctx.noShallow v o hrel ho hs' hk
+        have hfx := T.ctx.noShallow v o hrel ho hk
         subst hfx
         simp only [if_true]
         exact viaVisited_total (thr := thr) _ f hkP hkI ih .shallow dst hci hci2 hrel hv
           (hedges (by simp [hk])) hb
       | cell =>
-        have hfx := T.cell v o hrel ho hs' hk
+        have hfx := T.cell v o hrel ho hs' (Or.inl hk)
         subst hfx
         simp only [if_true]
         exact viaVisited_total (thr := thr) _ f hkP hkI ih .cell thr hci hci2 hrel hv
